@@ -467,7 +467,7 @@ def layout_cols(ex):
 def span_of(node):
     """((line, column), (line, column)) of an AstNode"""
     rng = node.fields[0]
-    return tuple((p.fields[0].concrete(), p.fields[1].concrete()) for p in rng.fields[:2])
+    return tuple((p.fields[TP.LOC_IDX["line"]].concrete(), p.fields[TP.LOC_IDX["col"]].concrete()) for p in rng.fields[:2])
 
 
 def m_location(ex, callee, args, ret_ty, frame):
